@@ -268,7 +268,8 @@ def corpus_batch(files, ctr, out):
 _P = {"recursion": True, "max_subs": 4}
 _c = fragcheck.FragCheck(
     PROP, evaluate,
-    profiles=[(3, {}, "mixed"), (3, dict(_P), "recursion"), (2, {"max_subs": 5, "max_depth": 4, "direct_only": True}, "deep-direct"),
+    profiles=[(3, {}, "mixed"), (3, dict(_P), "recursion"),
+              (3, {"max_subs": 3, "weights": {"loop": 3, "doloop": 6, "call": 8, "ret": 3}, "max_stmts": 3}, "calls-in-loops"), (2, {"max_subs": 5, "max_depth": 4, "direct_only": True}, "deep-direct"),
               (1, {"max_stmts": 2, "max_depth": 1, "max_subs": 2, "keys": ["Fee"]}, "small")],
     sizes={"quick": (32, 14), "thorough": (160, 60)},
     rule="reported paths of the nine detectors on fragment programs (incl. recursion, loops inside subroutines, shared "
